@@ -7,7 +7,7 @@ from __future__ import annotations
 
 from hypothesis import strategies as st
 
-from vlib import gen_maps, join_unit, pipeline, xmap_text
+from vlib import gen_maps, join_unit, pipeline, scale, xmap_text
 from vlib.core import Sub, Violation, req
 from vlib.oracles import valid_matching
 
@@ -202,6 +202,9 @@ def subchecks(tier):
     return [Sub("four-modes", "hyp", check_modes, strategy=strategy, examples=320 if q else 8000, shrink_budget=60,
                 describe="same input in best/separate/joined/all + boundary probe", sample_filter=gen_maps.short_case,
                 required_classes=("joined", "union-valid", "boundary-probe")),
+            Sub("many-queries", "hyp", lambda c: check_modes(c, probe=False), strategy=lambda: scale.many_queries_case(two_part=True, counts=(150, 257)),
+                examples=1 if q else 16, shrink_budget=0, shards=1 if q else 16, sample_filter=scale.short, time_budget_s=3000,
+                describe="150-257 two-part molecules (more than a hundred second-pass fragments) in all four modes"),
             Sub("join-unit", "hyp", check_join_unit, strategy=join_unit.join_case, examples=12000 if q else 300000, shrink_budget=600,
                 describe="AlignmentResults.resolve on a first-pass row and the second-pass row of its own fragment (unit level)",
                 required_classes=("joined", "not-joined", "union-valid"))]
